@@ -140,7 +140,8 @@ def hstep (d : HS) (ws : List String) : HS × String :=
       let cfg := d.fullCfg
       let kind := if k == "cyg" then Kind.cyg else Kind.pg
       let en := d.enabled.getD cfg.enabled0
-      let s0 := { (d.threads.lookup d.cur).getD (St.init cfg) with enabled := en }
+      -- a new thread: mtdp->enable_cached = mcount_enabled (mcount.c:489)
+      let s0 := { (d.threads.lookup d.cur).getD { St.init cfg with enableCached := en } with enabled := en }
       let r := entry cfg kind s0 f d.now
       let log := logEntry d.funcs (entryHook cfg kind s0 f d.now)
       let stk := (d.stacks.lookup d.cur).getD []
